@@ -21,12 +21,12 @@ CHECKS.update({
          "DESIGN.md §4 C10"),
  "C11": ("E1-choice-tree",
          "exhaustive enumeration of all short byte strings x all decodable types on the real decoder against a reference decoder, with allocation accounting, in crash-isolated workers",
-         "All byte strings up to the length bound, the announced-size family and every truncation / single-byte substitution of valid encodings are decoded by the real decoder for 35 types (including the generator-reply types compiled from /repo/slicec/src/definition_types.rs); Ok/Err, value and consumed prefix must agree with an independent reference decoder, every error must render, and bytes allocated per decode (counted by the harness allocator) must be governed by the input length.",
+         "All byte strings up to the length bound, the announced-size family and every truncation / single-byte substitution of valid encodings are decoded by the real decoder for 35 types (including the generator-reply types compiled from /repo/slicec/src/definition_types.rs); Ok/Err, value and consumed prefix must agree with an independent reference decoder, every error must render, and bytes allocated per decode (counted by the harness allocator) must be governed by the input length; every truncation and 6 substitutions at every byte of a valid reply are also sent to the real slicec binary by a fake generator: an undecodable reply must become an error diagnostic and a non-zero exit status.",
          "trusted: the reference decoder in mc/src/refcodec.rs; the memory bound 256*len+4KiB is the harness' reading of 'governed by the length of the input'; byte strings longer than the bound are covered only through the corruption and announced-size families",
          "DESIGN.md §4 C11"),
  "C19": ("E1-choice-tree",
          "exhaustive enumeration of all short specification strings through the real clap command line against a reference parser; exhaustive round-trip products",
-         "Every string up to the length bound over the syntax-relevant alphabet is parsed through the real command-line definition and compared (accept/reject, path, pairs, order) with a reference parser written from the statement; every bounded (path, arguments) value is rendered through the escaping function and must parse back exactly; repeated -G options keep their order.",
+         "Every string up to the length bound over the syntax-relevant alphabet is parsed through the real command-line definition and compared (accept/reject, path, pairs, order) with a reference parser written from the statement; every bounded (path, arguments) value is rendered through the escaping function and must parse back exactly; repeated -G options keep their order; through the real binary, argument lists (repeated keys, escaped / non-ASCII / long components) must reach two capturing generators unchanged after the identical request, and every rejected short string must be a usage error (exit status 2, nothing generated).",
          "trusted: the reference parser in mc/src/props/c19.rs; characters outside the alphabet are represented by 'b', tab, 'é' and '\"'",
          "DESIGN.md §4 C19"),
 })
@@ -39,7 +39,7 @@ CHECKS.update({
          "DESIGN.md §4 C02"),
  "C09": ("E1-choice-tree",
          "bounded-exhaustive enumeration of model programs x layouts; every AST span is checked against token positions recorded by the printer (relations from the statement)",
-         "For every program and layout of the C02 families every Symbol's span is one obligation, checked against the positions the printer recorded for the tokens of that element (start at first token of the declaration proper, name included, end on a token of the element, exact spans for identifiers/types/attributes, doc parts within the comment). Diagnostic spans and snippet rendering are checked on the violation catalogue.",
+         "For every program and layout of the C02 families every Symbol's span is one obligation, checked against the positions the printer recorded for the tokens of that element (start at first token of the declaration proper, name included, end on a token of the element, exact spans for identifiers/types/attributes, doc parts within the comment). Doc comments with non-ASCII text before their links, tags and line ends are a family of their own (every doc part must lie within the characters of its lines). Diagnostic spans and snippet rendering are checked on the violation catalogue.",
          "trusted: the printer's position recording (rows advance at LF, columns count characters); relations are deliberately weaker than slicec's current conventions where the statement leaves room",
          "DESIGN.md §4 C09"),
  "C20": ("E1-choice-tree",
@@ -52,7 +52,7 @@ CHECKS.update({
 CHECKS.update({
  "C05": ("E1-choice-tree",
          "complete enumeration of all small containment / alias / inheritance graphs rendered as programs and compiled by the real compiler; graph-theoretic oracle (reachability)",
-         "Every directed containment graph on up to 3 nodes (all kinds x 7 wrapper routings, per-edge routings on 2 nodes), all 65536 graphs on 4 nodes, all 9^4 alias graphs and all 2^16 inheritance graphs on 4 interfaces are compiled; E032 must be reported iff a containment cycle exists, chains must be real closed walks covering every node on a cycle, alias/inheritance loops must be rejected and acyclic ones accepted, and every run must end with a verdict in a crash-isolated worker.",
+         "Every directed containment graph on up to 3 nodes (all kinds x 7 wrapper routings, per-edge routings on 2 nodes), all 65536 graphs on 4 nodes, all 65536 graphs on same-named types of two modules, all 9^4 alias graphs and all 2^16 inheritance graphs on 4 interfaces (with an operation each and with empty bodies) are compiled; E032 must be reported iff a containment cycle exists, chains must be real closed walks covering every node on a cycle, alias/inheritance loops must be rejected and acyclic ones accepted, and every run must end with a verdict in a crash-isolated worker.",
          "trusted: the reachability oracle; graphs with more than 4 nodes are represented by six deterministic 10-node families only",
          "DESIGN.md §4 C05"),
 })
@@ -86,12 +86,12 @@ CHECKS.update({
 CHECKS.update({
  "C16": ("E1-choice-tree",
          "bounded-exhaustive enumeration of doc-comment shapes x commentable positions x link targets compiled by the real compiler against a reference comment reader and the reference resolver",
-         "All overview line sequences up to the bound over a 27-form line alphabet (six indentation kinds incl. mixed-width Unicode, links at start/middle/end, blank and whitespace-only lines), block tags with inline/continuation messages in all orders, 32 link targets of every kind and scope distance from 11 positions, and a 16-form malformed catalogue alone and next to healthy sibling comments: the whole observed AST including comments must equal the model; malformed / ill-fitting / unresolvable give exactly warnings of the right lint, never an error, and never cost an element.",
+         "All overview line sequences up to the bound over a 27-form line alphabet (six indentation kinds incl. mixed-width Unicode, links at start/middle/end, blank and whitespace-only lines), block tags with inline/continuation messages in all orders and under 8 indentations / 4 gaps of the tag line (ASCII, non-ASCII, mixed), 32 link targets of every kind and scope distance from 11 positions, and a 16-form malformed catalogue alone and next to healthy sibling comments: the whole observed AST including comments must equal the model; malformed / ill-fitting / unresolvable give exactly warnings of the right lint, never an error, and never cost an element.",
          "trusted: the reference comment reader in mc/src/model/doc.rs (written from the statement); CRLF carriage returns at line ends are normalised; @param on an enumerator is not judged",
          "DESIGN.md §4 C16"),
  "C17": ("E1-choice-tree",
          "exhaustive enumeration of argument lists over real directory trees (files, links, cycles, unreadable entries) through compile_from_options against a reference file-set resolver",
-         "2^6 real directory trees (optional empty dir, file link, directory link, symlink cycle, dangling link, invalid UTF-8 file) x every sources/references argument list up to the bound over 11-18 path spellings per tree: compiled set, order, source priority, one DuplicateFile warning per repeat within a list and none across lists, I/O errors for missing / non-.slice / directory-as-source / unreadable and nothing parsed then.",
+         "2^6 real directory trees (optional empty dir, file link, directory link, symlink cycle, dangling link, invalid UTF-8 file) x every sources/references argument list up to the bound over 12-19 path spellings per tree (incl. extensions in another letter case): compiled set, order, source priority, one DuplicateFile warning per repeat within a list and none across lists, I/O errors for missing / non-.slice / directory-as-source / unreadable and nothing parsed then.",
          "trusted: the reference resolver in mc/src/props/c17.rs (identity = canonical path computed on the model tree); permission faults cannot be produced as root (invalid UTF-8 stands in); under a symlink cycle only lower bounds on warnings are checked; read_dir order is treated as unordered",
          "DESIGN.md §4 C17"),
 })
@@ -99,20 +99,20 @@ CHECKS.update({
 CHECKS.update({
  "C06": ("E1-choice-tree",
          "bounded-exhaustive enumeration of directive/source line sequences x symbol sets and of boolean expressions compiled by the real compiler against a reference preprocessor",
-         "All line sequences (well nested or not) up to the length bound over a 14-form alphabet x all 8 subsets of {A,B,C} given with -D, all expression trees and token strings up to the bound, layout variants (indentation, blanks after '#', trailing comments, CRLF, missing final newline), 2- and 3-file sets: for well-formed files the definitions reaching the parser are exactly the selected lines at their original rows and columns (and an E033 probe diagnostic sits on the original position), ill-formed files give a located E002, symbols never leak between files.",
+         "All line sequences (well nested or not) up to the length bound over a 14-form alphabet x all 8 subsets of {A,B,C} given with -D, all expression trees and token strings up to the bound, layout variants (indentation, blanks after '#', trailing comments, CRLF, missing final newline), chains of #elif branches with different conditions, 2- and 3-file sets (also next to an ill-formed file that changes symbols before it fails): for well-formed files the definitions reaching the parser are exactly the selected lines at their original rows and columns (and an E033 probe diagnostic sits on the original position), ill-formed files give a located E002, symbols never leak between files.",
          "trusted: the reference preprocessor in mc/src/props/c06.rs; the expression grammar (! only before the first term, && and || equal precedence, left associative) is taken as the language definition; E002 counts are not demanded",
          "DESIGN.md §4 C06"),
  "C13": ("E1-choice-tree",
          "complete product of lint templates x suppression placements x arguments (options parsed by the real clap definition) with a reference level function and a differential oracle",
-         "32 templates (every lint kind on every element kind it can arise on) x 8 placements x 5 arguments x {alone, next to an error}, all placement pairs, and DuplicateFile on real files: a lint is Allowed exactly when named (or All) by an accepted --allow, the file attribute of its file, the element concerned or an enclosing definition; with and without the suppression the diagnostic list, spans and the AST are identical except for the targeted levels and the attribute itself; errors keep level Error.",
-         "trusted: the reference level function in mc/src/props/c13.rs; an allow on an enclosing member (operation / enumerator) is not judged because the statement says 'definition'; the generator-request differential is covered by C08's attribute fidelity, exit status by C07",
+         "34 templates (every lint kind on every element kind it can arise on, incl. a parameter and a return member with the same name) x 8 placements x 5 arguments x {alone, next to an error}, all placement pairs, DuplicateFile on real files, and the single-placement product again through the real binary with a capturing generator (exit status, error reports, set of warnings and decoded generator request with and without the suppression): a lint is Allowed exactly when named (or All) by an accepted --allow, the file attribute of its file, the element concerned or an enclosing definition; with and without the suppression the diagnostic list, spans and the AST are identical except for the targeted levels and the attribute itself; errors keep level Error.",
+         "trusted: the reference level function in mc/src/props/c13.rs; an allow on an enclosing member (operation / enumerator) is not judged because the statement says 'definition'; the request differential uses C08's decoder",
          "DESIGN.md §4 C13"),
 })
 
 CHECKS.update({
  "C08": ("E3-process",
          "exhaustive enumeration of model programs x source/reference splits x argument lists through the real slicec binary with a capturing generator; independent schema decoder; expected request computed from the model",
-         "Every construct alone in 4 module scopes x 4 splits x 4 argument lists, all ordered construct pairs, all 40 constructs packed into one file, three-file programs in every source/reference assignment and order, every @param/@returns documentation shape and every value extreme: the bytes received by the generator must end with its own arguments, the rest must decode completely according to slice/Compiler with an independently written decoder, and the decoded request (numeric type ids inlined, constrained to earlier anonymous symbols of the same file) must equal the request computed from the model; named ids must exist in transmitted files.",
+         "Every construct alone in 4 module scopes x 4 splits x 4 argument lists, all ordered construct pairs, all 40 constructs packed into one file, three-file programs in every source/reference assignment and order, every @param/@returns documentation shape and every value extreme: every run has three generators with different argument lists: the bytes received by each must end with its own arguments and the request before them must be byte-identical for all, the rest must decode completely according to slice/Compiler with an independently written decoder, and the decoded request (numeric type ids inlined, constrained to earlier anonymous symbols of the same file) must equal the request computed from the model; named ids must exist in transmitted files.",
          "trusted: the decoder and the expected-request builder in mc/src/props/c08.rs; variants are decoded as varint discriminant + payload + tag end marker, as the hand-written encoder and DESIGN §8 establish; message components are compared after concatenation",
          "DESIGN.md §4 C08"),
 })
@@ -120,7 +120,7 @@ CHECKS.update({
 CHECKS.update({
  "C14": ("E1-choice-tree",
          "enumeration of diagnostic-producing programs x emission configurations; the stream written by the real DiagnosticEmitter (and by the real binary) is re-parsed independently and compared with the diagnostics obtained through the API",
-         "44 diagnostic sources (one per diagnostic kind reachable from text, incl. notes with and without spans, multi-line spans, hostile user text) alone and in all ordered pairs, in one and two files and two layouts x {human, json} x colour on/off x --allow none/Deprecated/All are emitted into a buffer by the real emitter with options parsed by the real clap definition; a process-level slice runs the binary for totals, exit status, span-less diagnostics and hostile file names. JSON lines must parse to objects with exactly the five keys and equal the API values in order; human output must have one header per non-allowed diagnostic with its notes and locations; totals and exit status agree; no ESC byte with colours disabled; allowed lints leave no trace.",
+         "44 diagnostic sources (one per diagnostic kind reachable from text, incl. notes with and without spans, multi-line spans, hostile user text) alone and in all ordered pairs, in one and two files and two layouts x {human, json} x colour on/off x --allow none/Deprecated/All are emitted into a buffer by the real emitter with options parsed by the real clap definition; a process-level slice runs the binary for totals, exit status, span-less diagnostics, diagnostics from the generator phase and hostile file names, with the environment asking for colours. JSON lines must parse to objects with exactly the five keys and equal the API values in order; human output must have one header per non-allowed diagnostic with its notes and locations; totals and exit status agree; no ESC byte with colours disabled; allowed lints leave no trace.",
          "trusted: the stream parsers in mc/src/props/c14.rs; serde_json for parsing; multi-line messages are compared on their first line in human format",
          "DESIGN.md §4 C14"),
 })
@@ -128,7 +128,7 @@ CHECKS.update({
 CHECKS.update({
  "C15": ("E1-choice-tree",
          "exhaustive subsets x permutations of a file pool compiled in-process (each twice, fresh hash seeds) and exhaustive source/reference assignments x orders through the real binary under controlled hash seeds; differential oracle",
-         "Every subset of 2..4 (thorough: 5) of 16 inter-dependent files in every permutation: accepted-or-rejected, every file's AST and the multiset of warnings must not depend on the order, and compiling twice gives identical results; at process level 3-file programs in every source/reference assignment and order, each under several HashMap seeds injected through an LD_PRELOAD getrandom shim: diagnostics and generator requests byte-identical across seeds and repetitions, request content per file identical across assignments.",
+         "Every subset of 2..4 (thorough: 5) of 21 inter-dependent files (cross-file references, alias chains, inheritance, deprecated uses, name collisions between definitions, modules and members, preprocessor symbols) in every permutation: accepted-or-rejected, every file's AST and the multiset of warnings must not depend on the order, and compiling twice gives identical results; 26 diagnostic-dense programs alone and in all ordered pairs are compiled 8 (thorough: 64) times with fresh hash seeds and must report the same diagnostics in the same order; at process level 3- and 4-file programs (clean, with warnings, rejected; thorough: every 3-subset of the pool) in every source/reference assignment and order, each under several HashMap seeds injected through an LD_PRELOAD getrandom shim: diagnostics and generator requests byte-identical across seeds and repetitions, request content per file identical across assignments.",
          "trusted: shim/hashseed.c controls std's hash seed (verified: same seed same order); the 2^128 seed space is sampled (4 / 32 seeds), everything else is exhaustive within the pool",
          "DESIGN.md §4 C15"),
 })
@@ -136,7 +136,7 @@ CHECKS.update({
 CHECKS.update({
  "C01": ("E1-choice-tree",
          "bounded-exhaustive enumeration of token soups, one-deviation mutations, type form x position products, comment/directive soups and size-parametrised cost families in crash-isolated worker processes, plus the option product of the real binary",
-         "Every token sequence up to the bound over a 67-token alphabet in 10 contexts, every single-token and single-character deviation of 8 base programs, 175 type forms in 14 positions, comment and directive soups, 12 cost-growth families doubling up to 8 KiB (each instance alone under the statement's time bound) are compiled, level-updated and emitted in both formats inside worker processes whose death (stack overflow, abort, signal) or silence is observed by the parent; the binary is run over the option product. Only 'terminates with a verdict within the bound' is judged.",
+         "Every token sequence up to the bound over a 67-token alphabet in 10 contexts, every single-token and single-character deviation of 8 base programs, 175 type forms in 14 positions, comment and directive soups, 12 cost-growth families doubling up to 8 KiB (each instance alone under the statement's time bound) are compiled, level-updated and emitted in both formats inside worker processes whose death (stack overflow, abort, signal) or silence is observed by the parent; the binary is run over the option product and over directory trees with symbolic-link cycles and unresolvable links; C05's containment / alias / inheritance graph families run a second time for the verdict only. Only 'terminates with a verdict within the bound' is judged.",
          "trusted: the worker isolation in mc/src/engine.rs; inputs larger than the bounds are not covered; only inputs <= 8 KiB are timed against the 20 s clause; Unicode is represented by one code point per UTF-8 length class and per hazard",
          "DESIGN.md §4 C01"),
 })
